@@ -111,6 +111,14 @@ def R2_helpers(ctx):
     mc = cval("MIN_COST")
     okm = mc not in ("inf", "NaN", "-inf") and Fraction(0) < Fraction(mc) < Fraction(1, 10**6)
     ctx.check(okm, "const:MIN_COST", "MIN_COST = %s is not a tiny positive finite number" % mc, None, detail=mc)
+    # The floored total is stored as access + (total - access) (C07.R3) and charged as their f64 sum.  Over the reals that is the
+    # total; in binary64 the floor must not be absorbed by the subtraction.  Necessary condition, evaluated on the constant only
+    # (IEEE double arithmetic on two literals, no program is run): for an access cost of ordinary size a in {1, 1000} (a turn
+    # delay of one second, a per-turn surcharge), a + (MIN_COST - a) > 0.
+    if okm:
+        f = float(Fraction(mc))
+        absorbed = [a for a in (1.0, 1000.0) if not (a + (f - a) > 0.0)]
+        ctx.check(not absorbed, "const:MIN_COST:survives-the-access/traversal-split", "MIN_COST = %s is absorbed by f64 rounding when the floored total is split into access + (total - access): for access cost %s the charged sum is 0, not strictly positive" % (mc, absorbed[:1]), None, detail="a + (MIN_COST - a) > 0 in binary64 for a = 1, 1000")
     ctx.check(Fraction(cval("ZERO")) == 0, "const:ZERO", "Cost::ZERO = %s" % cval("ZERO"), None, detail=cval("ZERO"))
     ctx.check(Fraction(cval("ONE")) == 1, "const:ONE", "Cost::ONE = %s" % cval("ONE"), None, detail=cval("ONE"))
     ctx.check(cval("INFINITY") == "inf", "const:INFINITY", "Cost::INFINITY = %s" % cval("INFINITY"), None, detail=cval("INFINITY"))
@@ -201,31 +209,33 @@ def R4_formula(ctx, rid="C07.R4"):
     cl, cb = closure_of(F, rt, "calculate_vehicle_costs")
     it = rt[2][1] if ok else None
     ctx.check(ok and it[0] == "call" and itm(it[1], "map") and it[2][0] == ("call", "std::slice::<impl [T]>::iter", (("arg", 2),)), "vehicle:all-features", "the map does not range over all feature indices", b.where())
+    # the closure's value in the terms of calculate_vehicle_costs (captures replaced by what they capture, the feature by 'elem')
     caps = cl[2]
-    cap = lambda t: caps.index(t) if t in caps else None
-    i_prev, i_next, i_rates, i_w = cap(("field", ("arg", 1), "0")), cap(("field", ("arg", 1), "1")), cap(("arg", 4)), cap(("arg", 3))
-    ctx.check(None not in (i_prev, i_next, i_rates, i_w), "vehicle:captures", "closure does not capture (prev_state, next_state, rates, weights): %s" % [short(c) for c in caps], b.where())
+    ELEM = ("elem",)
+    up = lambda t: proj_simplify(clean(substitute_closure(t, caps, (ELEM,))))
+    idx = ("field", ELEM, "1")
+    get = lambda base: ("call", "std::slice::<impl [T]>::get", (base, idx))
+    PREV, NEXT, RATES, W = ("field", ("arg", 1), "0"), ("field", ("arg", 1), "1"), ("arg", 4), ("arg", 3)
     rows = ok_rows(cb)
     ctx.check(len(rows) == 1, "vehicle:closure-paths", "expected one Ok path in the per-feature closure, found %d" % len(rows), cb.where())
-    if rows and None not in (i_prev, i_next, i_rates, i_w):
-        v = agg_payload(rows[0].ret)
-        idx = ("field", ("arg", 2), "1")
-        up = lambda i: ("field", ("arg", 1), str(i))
-        get = lambda i: ("call", "std::slice::<impl [T]>::get", (up(i), idx))
+    if rows:
+        v = up(agg_payload(rows[0].ret))
+        used = {q for q in subterms(v) if q in (PREV, NEXT, RATES, W)}
+        ctx.check(used == {PREV, NEXT, RATES, W}, "vehicle:captures", "the per-feature cost is not computed from (prev_state, next_state, rates, weights): uses %s" % sorted(short(q) for q in used), b.where())
         okshape = v[0] == "tuple" and len(v[1]) == 2
         ctx.check(okshape, "vehicle:pair", "closure does not return (name, cost)", cb.where())
         if okshape:
             cost = v[1][1]
             mvs = calls_in(cost, M + "cost::vehicle::vehicle_cost_rate::VehicleCostRate::map_value")
-            okm = len(mvs) == 1 and mvs[0][2][0] == get(i_rates)
+            okm = len(mvs) == 1 and mvs[0][2][0] == get(RATES)
             ctx.check(okm, "vehicle:rate-slot", "the rate is not rates[state_idx] of the same feature", cb.where())
             if okm:
                 A = Arith(F)
-                A.symbols = {get(i_next): "n", get(i_prev): "p"}
+                A.symbols = {get(NEXT): "n", get(PREV): "p"}
                 d = A.ev(mvs[0][2][1])
                 ctx.check(d.equals(Ratio(Poly.sym("n")) - Ratio(Poly.sym("p"))), "vehicle:delta", "the rated quantity is %r, expected next[i] - prev[i] of the same slot" % d, cb.where(), detail=repr(d))
                 A2 = Arith(F)
-                A2.symbols = {mvs[0]: "mv", get(i_w): "w"}
+                A2.symbols = {mvs[0]: "mv", get(W): "w"}
                 c = A2.ev(cost)
                 ctx.check(c.equals(Ratio(Poly.sym("mv")) * Ratio(Poly.sym("w"))), "vehicle:weight", "feature cost is %r, expected map_value(delta) * weights[i]" % c, cb.where(), detail=repr(c))
     # ---- network traversal / access costs
@@ -236,10 +246,14 @@ def R4_formula(ctx, rid="C07.R4"):
         ctx.check(ok, fn + ":aggregated", "not aggregated with cost_aggregation.agg_iter: %s" % short(rt)[:160], b.where())
         cl, cb = closure_of(F, rt, fn)
         caps = cl[2]
+        ELEM = ("elem",)
+        up = lambda t, caps=caps: proj_simplify(clean(substitute_closure(t, caps, (ELEM,))))
+        idx = ("field", ELEM, "1")
+        get = lambda base: ("call", "std::slice::<impl [T]>::get", (base, idx))
         rows = ok_rows(cb)
         found = False
         for r in rows:
-            v = agg_payload(r.ret)
+            v = up(agg_payload(r.ret))
             if v[0] != "tuple":
                 continue
             cost = v[1][1]
@@ -249,27 +263,24 @@ def R4_formula(ctx, rid="C07.R4"):
                 ctx.check(cost == ("item", COST + "::ZERO"), fn + ":no-rate", "a feature without a rate is not priced ZERO: %s" % short(cost), cb.where())
                 continue
             found = True
-            idx = ("field", ("arg", 2), "1")
             recv = nc[0][2][0]
-            rates_cap = ("arg", 5)
-            okr = recv[0] == "call" and recv[1] == "std::slice::<impl [T]>::get" and recv[2][1] == idx and caps[int(recv[2][0][2])] == rates_cap
-            ctx.check(okr, fn + ":rate-slot", "the network rate is not rates[idx] of the same feature: %s" % short(recv), cb.where())
+            ctx.check(recv == get(("arg", 5)), fn + ":rate-slot", "the network rate is not rates[idx] of the same feature: %s" % short(recv), cb.where())
             A = Arith(F)
             A.symbols = {nc[0]: "c"}
             got = A.ev(cost)
             others = got.p.symbols() - {"c"}
-            lin = got.q.is_const() and all(k == () or (len(k) == 2 and dict(k).get("c") == 1) or k == (("c", 1),) for k in got.p.d)
-            wsyms = [s for s in others]
-            okw = len(wsyms) == 1 and ("arg1.%d" % caps.index(("arg", 4)) in wsyms[0]) and "arg2.1" in wsyms[0] if ("arg", 4) in caps else False
+            wterms = [k for k, nm in A.opaque.items() if nm in others]
+            okw = len(wterms) == 1 and contains(wterms[0], lambda q: q == get(("arg", 4))) and got.equals(Ratio(Poly.sym("c")) * Ratio(Poly.sym(list(others)[0])))
             ctx.check(okw, fn + ":weight", "network cost is %r, expected rate.%s(..) * weights[idx]" % (got, method), cb.where(), detail=repr(got))
+            # state roles: the rated transition is (prev[idx], next[idx]) of the same slot
+            oks = nc[0][2][1] == get(("field", ("arg", 1), "0")) and nc[0][2][2] == get(("field", ("arg", 1), "1"))
+            ctx.check(oks, fn + ":states", "the rated transition is not (prev_state[idx], next_state[idx]): %s, %s" % (short(nc[0][2][1])[:60], short(nc[0][2][2])[:60]), cb.where())
             # edge roles
             if method == "traversal_cost":
-                oke = caps[int(nc[0][2][3][2])] == ("arg", 2) if nc[0][2][3][0] == "field" else False
-                ctx.check(oke, fn + ":edge", "the priced edge is not the traversed edge", cb.where())
+                ctx.check(nc[0][2][3] == ("arg", 2), fn + ":edge", "the priced edge is not the traversed edge", cb.where())
             else:
                 e1, e2 = nc[0][2][3], nc[0][2][4]
-                oke = e1[0] == "field" and e2[0] == "field" and caps[int(e1[2])] == ("field", ("arg", 2), "0") and caps[int(e2[2])] == ("field", ("arg", 2), "1")
-                ctx.check(oke, fn + ":edges", "the priced pair is not (prev_edge, next_edge) in that order", cb.where())
+                ctx.check(e1 == ("field", ("arg", 2), "0") and e2 == ("field", ("arg", 2), "1"), fn + ":edges", "the priced pair is not (prev_edge, next_edge) in that order", cb.where())
         ctx.check(found, fn + ":priced", "no feature is priced through NetworkCostRate::%s" % method, cb.where())
     # ---- rate tables
     mv = F.need(M + "cost::vehicle::vehicle_cost_rate::VehicleCostRate::map_value")
